@@ -149,6 +149,13 @@ M("c13.kdfgate.pem", "C13", "lib/Crypto/IO/PEM.py",
   '        if not passphrase:\n            raise ValueError("PEM is encrypted, but no passphrase available")\n', "", "G|kdf-gate|PEM.decode")
 M("c13.kdfgate.pkcs8", "C13", "lib/Crypto/IO/PKCS8.py", "    if passphrase is not None:\n        passphrase = tobytes(passphrase)\n",
   "    if True:\n        passphrase = tobytes(passphrase or b'')\n", "G|kdf-gate|PKCS8.unwrap")
+M("c13.dsa.spki.ints.revert", "C13", "lib/Crypto/PublicKey/DSA.py",
+  "    p, q, g = list(DerSequence().decode(params or emb_params,\n                                        nr_elements=3,\n                                        only_ints_expected=True))\n",
+  "    p, q, g = list(DerSequence().decode(params or emb_params))\n", "X|DSA.import_key|TypeError@_import_subjectPublicKeyInfo")
+M("c13.rsa.cascade.keyerror", "C13", "lib/Crypto/PublicKey/RSA.py", 'raise ValueError("No PKCS#8 encoded RSA key")', 'raise KeyError("No PKCS#8 encoded RSA key")', "X|RSA.import_key|KeyError")
+M("c13.twin.dsa.spki.ints", "C13", "lib/Crypto/PublicKey/DSA.py",
+  "    p, q, g = list(DerSequence().decode(params or emb_params,\n                                        nr_elements=3,\n                                        only_ints_expected=True))\n",
+  "    dss = DerSequence().decode(params or emb_params, only_ints_expected=True, nr_elements=3)\n    p, q, g = dss[0], dss[1], dss[2]\n", twin=True)
 M("c13.twin.asn1.guard", "C13", ASN1, "                    if len(encoded_length) == 0:\n", "                    if not encoded_length:\n", twin=True)
 
 # ---------------------------------------------------------------- C17 (hand-written successors of obsolete seeds)
